@@ -6,7 +6,8 @@
  * (incrementally maintained screen A) and up to the key after it (fully repainted screen B).
  * Oracle: the text rows of A and B are identical and so is the cursor cell; the cursor row is inside
  * the window; with highlighting off and ASCII text every row of A equals the buffer line at
- * xtop+row clipped to [xleft, xleft+cols), rows past the end show "~".
+ * xtop+row clipped to [xleft, xleft+cols), rows past the end show "~".  BUF 4 has lines of right-to-left
+ * letters longer than the window: character p of such a line belongs in column cols-1-(p-xleft).
  */
 #include "vih.h"
 #include "vi.h"
@@ -31,8 +32,16 @@ static const char *menu[] = {
 	"$", "0", "3G", "2dd", "yyP", "5j", "w", "A tail\033", ":2\n", "\005\005",
 	"Hdk", "Hckchanged\033", "Ld2j", "Hjd2k",
 	"oabcdefghijklmnopqrstuvwxyz\nshort\033", "A abcdefghijklmnopqrstuvwxyz\nq\033", "Oone\ntwo\nthree\033",
+	"$j", "30|", "$k", "j$",
 };
-#define NMENU 43
+#define NMENU 47
+/* BUF 4: right-to-left lines (Arabic letters, shaping off) longer than the window */
+static const char *menu_rtl[] = {
+	"j", "k", "$", "0", "x", "25l", "12l", "h", "dd", "u", "p", "yyP", "G", "H", "\005", "D", "30|", "5|", "jj", "3x",
+};
+#define NMENU_RTL 20
+#define AR1 "\330\247\330\250\330\252\330\253\330\254\330\255\330\256\330\257\330\260\330\261\330\262\330\263\330\264\330\265\330\266\330\267"
+#define AR2 "\330\270\330\271\330\272\331\201\331\202\331\203\331\204\331\205\331\206\331\207\331\210\331\211\331\212\330\242\330\243\330\244"
 static struct vt A, B;
 static char want[ROWS][COLS + 2];
 static int wrow, wcol, nwant;
@@ -53,29 +62,41 @@ static void snap(int k)
 				want[r][0] = '~';
 			continue;
 		}
+		if ((unsigned char) ln[0] >= 0x80) {	/* a line of two-byte right-to-left letters: character p is in column cols-1-(p-xleft) */
+			int nch = (int) (strlen(ln) - 1) / 2;
+			for (i = 0; i < COLS; i++) {
+				int p = xleft + COLS - 1 - i;
+				if (p >= 0 && p < nch)
+					want[r][i] = 0x80 | ((ln[2 * p] & 1) << 6) | (ln[2 * p + 1] & 0x3f);
+			}
+			continue;
+		}
 		for (i = 0; i < COLS && xleft + i < (int) strlen(ln) && ln[xleft + i] != '\n'; i++)
 			want[r][i] = ln[xleft + i];
 	}
 	wrow = xrow - xtop;
 	ln = lbuf_get(xb, xrow);
 	wcol = xoff - xleft;
-	(void) ln;
+	if (ln && (unsigned char) ln[0] >= 0x80)
+		wcol = COLS - 1 - (xoff - xleft);
 }
 void harness(void)
 {
 	static char file[2048];
 	int i, n = 0, r;
-	for (i = 0; i < (BUF == 0 ? 0 : BUF == 1 ? 3 : 12); i++)
+	if (BUF == 4)
+		n = sprintf(file, "line 1\n" AR1 AR2 "\n" AR2 "\nline 4\n" AR1 "\nline 6\nline 7\nline 8\n");
+	for (i = 0; i < (BUF == 0 || BUF == 4 ? 0 : BUF == 1 ? 3 : 12); i++)
 		n += sprintf(file + n, BUF == 3 && i == 1 ? "line %d is a long line that does not fit in the window at all\n" : "line %d\n", i + 1);
 	env_mkfile("f", file, n, 5);
 	env_lines = STR(ROWS);
 	env_columns = STR(COLS);
-	env_exinit = "set nohl | set noru";
+	env_exinit = BUF == 4 ? "set nohl | set noru | set noshape" : "set nohl | set noru";
 	for (i = 0; i < N; i++) {
 		int c = symx_u8("cmd");
-		symx_assume(c < NMENU);
+		symx_assume(c < (BUF == 4 ? NMENU_RTL : NMENU));
 		c = symx_conc(c);
-		vih_str(menu[c]);
+		vih_str(BUF == 4 ? menu_rtl[c] : menu[c]);
 	}
 	env_mark_at[0] = env_in_len;		/* the ^L key */
 	vih_str("\014");
@@ -90,6 +111,23 @@ void harness(void)
 	vt_feed(&A, env_tty, env_mark_tty[0]);
 	B = A;
 	vt_feed(&B, env_tty + env_mark_tty[0], env_mark_tty[1] - env_mark_tty[0]);
+#ifdef VT_DUMP
+	{
+		extern int fprintf(void *, const char *, ...);
+		extern void *stderr;
+		int c;
+		fprintf(stderr, "xtop-rel row %d col %d xleft?; A cursor %d,%d B cursor %d,%d\n", wrow, wcol, A.r, A.c, B.r, B.c);
+		for (r = 0; r < ROWS; r++) {
+			fprintf(stderr, "A|");
+			for (c = 0; c < COLS; c++) fprintf(stderr, A.cell[r][c] & 0x80 ? "<%02x>" : "%c", (unsigned char) A.cell[r][c]);
+			fprintf(stderr, "|\nB|");
+			for (c = 0; c < COLS; c++) fprintf(stderr, B.cell[r][c] & 0x80 ? "<%02x>" : "%c", (unsigned char) B.cell[r][c]);
+			fprintf(stderr, "|\nW|");
+			for (c = 0; c < COLS; c++) fprintf(stderr, want[r][c] & 0x80 ? "<%02x>" : "%c", (unsigned char) want[r][c]);
+			fprintf(stderr, "|\n");
+		}
+	}
+#endif
 	symx_assert(!A.bad && !B.bad, "only sequences of the emulated subset are used");
 	for (r = 0; r < nwant && r < ROWS; r++) {
 		symx_assert(!memcmp(A.cell[r], B.cell[r], COLS), "incremental update == full repaint (no stale or missing row)");
